@@ -6,7 +6,7 @@ import numpy as np
 from dsim.kernel import Violation
 from dsim import values as V
 from dsim.worlds.arrays import (Skip, dec_index, plain_labels, ax_len, gen_label_index, gen_pos_index,
-                                fresh_labels)
+                                fresh_labels, absent_label)
 from dsim.worlds.array_ops import (REGISTRY, Op, defop, pick_arr, pick_dim, out, _gen_index_tuple, w_all_dims,
                                    NEWDIMS)
 
@@ -167,6 +167,12 @@ def _relabel():
                 if labs is None:
                     return None
                 new.append(fresh_labels(rng, len(labs), labs))
+                if len(new[-1]) != len(labs):
+                    return None
+            if how == "axes_assign" and new and rng.random() < 0.15:
+                # a deliberately ill-fitting request: must be refused (or at least leave a well-formed array)
+                k = rng.randrange(len(new))
+                new[k] = new[k] + [absent_label(rng, new[k])] if rng.random() < 0.5 or len(new[k]) < 2 else new[k][:-1]
             return {"a": a_id, "how": how, "new": new}
         nm, ref = pick_dim(w, rng, a)
         labs = plain_labels(a.axes[nm])
